@@ -2,6 +2,10 @@
   C17 — Live aircraft table: robust, correct positions, bounded staleness.
 -/
 import PyModeS.Model.Tracker
+import PyModeS.Properties.C02
+import PyModeS.Proofs.Tracker.Process
+import PyModeS.Proofs.Tracker.Case
+import PyModeS.Proofs.Tracker.NoCrash
 namespace PyModeS.C17
 
 /-- after a call, every listed aircraft was heard at most `cache_timeout` (+ the truncation of `int(t)`) ago:
@@ -26,5 +30,364 @@ theorem stale_removed (ias : Rat → Int → Rat) (tr tr' : Tracker) (adsb commb
       intro p hp
       simp only [List.mem_filter] at hp
       simpa using hp.2
+
+open PyModeS.Tracker (keys keyOf)
+
+/-- the real DF17 identification frame (TC 4) and the real DF20 reply used in the examples below -/
+def exAdsb : Msg := "8D406B902015A678D4D220AA4BDA".toList
+def exCommb : Msg := "A0001839CA3800315800007448D9".toList
+def exAdsb2 : Msg := "8D400940000000000000000C0F7E".toList
+
+/-- vocabulary: `keys` is the key list of the dict in insertion order, `keyOf m` the key
+    `process_raw` files a message under (`pms.icao(msg)`, Python `None` rendered as "None") -/
+theorem keys_def (acs : List (Msg × Ac)) : keys acs = acs.map (·.1) := rfl
+theorem keyOf_def (m : Msg) : keyOf m = (icao m).getD "None".toList := rfl
+
+/-- table obligation -/
+theorem cacheTimeout_eq : Tables.cacheTimeout = 60 := by decide
+
+/-! ### 4. `int(t)`: truncation toward zero -/
+
+/-- `int(t)` is within one second of `t`, for every rational `t` -/
+theorem pyInt_bounds (t : Rat) : (pyInt t : Rat) ≤ t + 1 ∧ t - 1 < (pyInt t : Rat) :=
+  Tracker.pyInt_bounds t
+
+theorem pyInt_of_nonneg (t : Rat) (h : 0 ≤ t) : (pyInt t : Rat) ≤ t ∧ t < (pyInt t : Rat) + 1 :=
+  Tracker.pyInt_nonneg_bounds t h
+
+theorem pyInt_of_neg (t : Rat) (h : t < 0) : t ≤ (pyInt t : Rat) ∧ (pyInt t : Rat) < t + 1 :=
+  Tracker.pyInt_neg_bounds t h
+
+/-- both at once: strictly less than one second off -/
+theorem pyInt_abs_lt (t : Rat) : t - 1 < (pyInt t : Rat) ∧ (pyInt t : Rat) < t + 1 :=
+  Tracker.pyInt_abs_lt t
+
+theorem pyInt_mono {s t : Rat} (h : s ≤ t) : pyInt s ≤ pyInt t := Tracker.pyInt_mono h
+
+example : pyInt (7/2) = 3 ∧ pyInt (-7/2) = -3 ∧ pyInt 0 = 0 ∧ pyInt (-1/2) = 0 := by decide +kernel
+
+/-! ### 5. Keys are only ever added by ADS-B messages -/
+
+/-- a Comm-B step never adds (or removes, or reorders) a key -/
+theorem commbStep_keys (ias : Rat → Int → Rat) (tr tr' : Tracker) (t : Rat) (m : Msg)
+    (h : commbStep ias tr t m = .val tr') : tr'.acs.map (·.1) = tr.acs.map (·.1) :=
+  Tracker.commbStep_keys h
+
+/-- Comm-B gating: a reply whose address is not in the table leaves the table exactly as it is -/
+theorem commb_gated (ias : Rat → Int → Rat) (tr : Tracker) (t : Rat) (m : Msg)
+    (h : keyOf m ∉ keys tr.acs) : commbStep ias tr t m = .val tr := by
+  apply Tracker.commbStep_unknown
+  cases hg : acsGet tr.acs (keyOf m) with
+  | none => rfl
+  | some a => exact absurd (Tracker.acsGet_some_key hg) h
+
+/-- … and for a known address only `live` of that record changes (to `max(live, int(t))`) -/
+theorem commb_known (ias : Rat → Int → Rat) (tr tr' : Tracker) (t : Rat) (m : Msg)
+    (h : commbStep ias tr t m = .val tr') (hk : keyOf m ∈ keys tr.acs) :
+    ∃ ac, acsGet tr.acs (keyOf m) = some ac ∧
+      tr' = { tr with acs := acsSet tr.acs (keyOf m) { ac with live := max ac.live (pyInt t) } } := by
+  rcases Tracker.commbStep_val h with ⟨hn, _⟩ | h2
+  · have := (Tracker.acsGet_isSome_iff tr.acs (keyOf m)).mpr hk
+    rw [hn] at this; simp at this
+  · exact h2
+
+/-- an ADS-B step adds at most the key `icao(msg)`, keeps all others, and that key is present afterwards -/
+theorem adsbStep_keys (tr tr' : Tracker) (t : Rat) (m : Msg) (h : adsbStep tr t m = .val tr') :
+    (∀ k ∈ keys tr'.acs, k ∈ keys tr.acs ∨ k = keyOf m) ∧ (∀ k ∈ keys tr.acs, k ∈ keys tr'.acs) ∧
+    keyOf m ∈ keys tr'.acs :=
+  Tracker.adsbStep_keys h
+
+/-- **keys_grow_only_by_adsb** — after `process_raw`, every listed key was in the table before or
+    is the address of one of the ADS-B messages of this call; Comm-B messages contribute no key. -/
+theorem keys_grow_only_by_adsb (ias : Rat → Int → Rat) (tr tr' : Tracker) (adsb commb : List (Rat × Msg))
+    (tnow : Rat) (h : processRaw ias tr adsb commb tnow = .val tr') :
+    ∀ k ∈ keys tr'.acs, k ∈ keys tr.acs ∨ ∃ p ∈ adsb, k = keyOf p.2 := by
+  obtain ⟨tr1, tr2, h1, h2, rfl⟩ := Tracker.processRaw_val h
+  intro k hk
+  have hk2 := Tracker.filter_keys_subset _ _ k hk
+  rw [Tracker.commbFold_keys h2] at hk2
+  exact (Tracker.adsbFold_keys h1).1 k hk2
+
+/-- the table stays a dict: if no key occurs twice before the call, none does after it
+    (so `acsGet`, which returns the first match, reads THE record of a key) -/
+theorem keys_nodup (ias : Rat → Int → Rat) (tr tr' : Tracker) (adsb commb : List (Rat × Msg)) (tnow : Rat)
+    (h : processRaw ias tr adsb commb tnow = .val tr') (hn : (keys tr.acs).Nodup) : (keys tr'.acs).Nodup :=
+  Tracker.processRaw_nodup h hn
+
+example : (keys ({} : Tracker).acs).Nodup := by decide
+
+/-! ### 6. `live` -/
+
+/-- **live_after_adsb** — after an ADS-B step the sender is in the table with `live = int(t)` -/
+theorem live_after_adsb (tr tr' : Tracker) (t : Rat) (m : Msg) (h : adsbStep tr t m = .val tr') :
+    ∃ ac', acsGet tr'.acs (keyOf m) = some ac' ∧ ac'.live = pyInt t :=
+  Tracker.adsbStep_live h
+
+/-- a Comm-B step only raises `live` (the F13 repair: `max`), and only for its own address -/
+theorem commb_only_raises_live (ias : Rat → Int → Rat) (tr tr' : Tracker) (t : Rat) (m : Msg)
+    (h : commbStep ias tr t m = .val tr') (k : Msg) (ac : Ac) (hg : acsGet tr.acs k = some ac) :
+    ∃ ac', acsGet tr'.acs k = some ac' ∧ ac.live ≤ ac'.live ∧
+      (k = keyOf m → ac'.live = max ac.live (pyInt t)) ∧ (k ≠ keyOf m → ac' = ac) :=
+  Tracker.commbStep_live h k ac hg
+
+/-- **live_monotone** — within one call with non-decreasing ADS-B time stamps, every ADS-B message
+    `(t, m)` of the batch leaves its sender with `live ≥ int(t)` when the two loops are over (`tr2` is
+    the table just before the purge, `keep tnow p = not (tnow - p.live > cache_timeout)`):
+    a later message of the same call never moves `live` backwards. -/
+theorem live_monotone (ias : Rat → Int → Rat) (tr tr' : Tracker) (adsb commb : List (Rat × Msg)) (tnow : Rat)
+    (h : processRaw ias tr adsb commb tnow = .val tr')
+    (hs : adsb.Pairwise (fun p q => p.1 ≤ q.1)) (t : Rat) (m : Msg) (hm : (t, m) ∈ adsb) :
+    ∃ tr2 : Tracker, tr'.acs = tr2.acs.filter (Tracker.keep tnow) ∧
+      ∃ ac', acsGet tr2.acs (keyOf m) = some ac' ∧ pyInt t ≤ ac'.live := by
+  obtain ⟨tr1, tr2, h1, h2, rfl⟩ := Tracker.processRaw_val h
+  exact ⟨tr2, rfl, Tracker.commbFold_liveGe h2 _ _ (Tracker.adsbFold_heard_sorted h1 hs hm)⟩
+
+/-- (the purge predicate used above) -/
+theorem keep_def (tnow : Rat) (p : Msg × Ac) :
+    Tracker.keep tnow p = !decide (tnow - (p.2.live : Rat) > (Tables.cacheTimeout : Rat)) := rfl
+
+/-! ### 7. Who is listed after a call -/
+
+/-- **listed_if_recent** — non-decreasing ADS-B time stamps: an aircraft heard in this call by an
+    ADS-B message at time `t` with `tnow - t ≤ 59` is listed afterwards, with `live ≥ int(t)`.
+    (`int(t) > t - 1`, so `tnow - live < 60`, and the purge keeps everything with `tnow - live ≤ 60`.) -/
+theorem listed_if_recent (ias : Rat → Int → Rat) (tr tr' : Tracker) (adsb commb : List (Rat × Msg)) (tnow : Rat)
+    (h : processRaw ias tr adsb commb tnow = .val tr')
+    (hs : adsb.Pairwise (fun p q => p.1 ≤ q.1)) (t : Rat) (m : Msg) (hm : (t, m) ∈ adsb)
+    (hrecent : tnow - t ≤ 59) :
+    keyOf m ∈ keys tr'.acs ∧ ∃ ac', acsGet tr'.acs (keyOf m) = some ac' ∧ pyInt t ≤ ac'.live := by
+  obtain ⟨tr1, tr2, h1, h2, rfl⟩ := Tracker.processRaw_val h
+  have g2 := Tracker.commbFold_liveGe h2 _ _ (Tracker.adsbFold_heard_sorted h1 hs hm)
+  have hb := (Tracker.pyInt_bounds t).2
+  have g3 := Tracker.liveGe_survives (tnow := tnow) g2 (by grind)
+  obtain ⟨a, hg, hl⟩ := g3
+  exact ⟨Tracker.acsGet_some_key hg, a, hg, hl⟩
+
+/-- the same without any ordering assumption on the batch, for a message that is followed (in the
+    batch) only by messages which, if from the same address, have `int(t') ≥ int(t)` — in
+    particular for the LAST message of each address -/
+theorem listed_if_recent_last (ias : Rat → Int → Rat) (tr tr' : Tracker) (pre post commb : List (Rat × Msg))
+    (tnow : Rat) (t : Rat) (m : Msg)
+    (h : processRaw ias tr (pre ++ (t, m) :: post) commb tnow = .val tr')
+    (hpost : ∀ p ∈ post, keyOf p.2 = keyOf m → pyInt t ≤ pyInt p.1)
+    (hrecent : tnow - t ≤ 59) :
+    keyOf m ∈ keys tr'.acs ∧ ∃ ac', acsGet tr'.acs (keyOf m) = some ac' ∧ pyInt t ≤ ac'.live := by
+  obtain ⟨tr1, tr2, h1, h2, rfl⟩ := Tracker.processRaw_val h
+  have g2 := Tracker.commbFold_liveGe h2 _ _ (Tracker.adsbFold_heard h1 hpost)
+  have hb := (Tracker.pyInt_bounds t).2
+  have g3 := Tracker.liveGe_survives (tnow := tnow) g2 (by grind)
+  obtain ⟨a, hg, hl⟩ := g3
+  exact ⟨Tracker.acsGet_some_key hg, a, hg, hl⟩
+
+/-- heard by Comm-B: a reply at `t` with `tnow - t ≤ 59` from an address that is in the table when
+    the Comm-B loop starts (it was there before the call, or sent ADS-B in this call) keeps it listed -/
+theorem listed_if_recent_commb (ias : Rat → Int → Rat) (tr tr' : Tracker) (adsb commb : List (Rat × Msg))
+    (tnow : Rat) (h : processRaw ias tr adsb commb tnow = .val tr') (t : Rat) (m : Msg) (hm : (t, m) ∈ commb)
+    (hknown : keyOf m ∈ keys tr.acs ∨ ∃ p ∈ adsb, keyOf m = keyOf p.2) (hrecent : tnow - t ≤ 59) :
+    keyOf m ∈ keys tr'.acs ∧ ∃ ac', acsGet tr'.acs (keyOf m) = some ac' ∧ pyInt t ≤ ac'.live := by
+  obtain ⟨tr1, tr2, h1, h2, rfl⟩ := Tracker.processRaw_val h
+  have hk1 : keyOf m ∈ keys tr1.acs := by
+    rcases hknown with hk | ⟨p, hp, e⟩
+    · exact (Tracker.adsbFold_keys h1).2.1 _ hk
+    · rw [e]; exact (Tracker.adsbFold_keys h1).2.2 p hp
+  have g2 := Tracker.commbFold_heard h2 hm hk1
+  have hb := (Tracker.pyInt_bounds t).2
+  have g3 := Tracker.liveGe_survives (tnow := tnow) g2 (by grind)
+  obtain ⟨a, hg, hl⟩ := g3
+  exact ⟨Tracker.acsGet_some_key hg, a, hg, hl⟩
+
+/-- **absent_if_silent** — `L` bounds every `live` stamp the address `k` can end the loops with:
+    the stamps of its records before the call and `int(t)` of every message (ADS-B or Comm-B) of this
+    call filed under `k`.  If `tnow - L > 60` the address is not listed afterwards.
+    (An address not touched by the call: `hadsb`, `hcommb` hold vacuously — this is `stale_removed`
+    read as a statement about keys.) -/
+theorem absent_if_silent (ias : Rat → Int → Rat) (tr tr' : Tracker) (adsb commb : List (Rat × Msg)) (tnow : Rat)
+    (h : processRaw ias tr adsb commb tnow = .val tr') (k : Msg) (L : Int)
+    (hold : ∀ p ∈ tr.acs, p.1 = k → p.2.live ≤ L)
+    (hadsb : ∀ p ∈ adsb, keyOf p.2 = k → pyInt p.1 ≤ L)
+    (hcommb : ∀ p ∈ commb, keyOf p.2 = k → pyInt p.1 ≤ L)
+    (hsilent : tnow - (L : Rat) > 60) : k ∉ keys tr'.acs := by
+  obtain ⟨tr1, tr2, h1, h2, rfl⟩ := Tracker.processRaw_val h
+  exact Tracker.liveLe_purged (Tracker.commbFold_liveLe h2 k L (Tracker.adsbFold_liveLe h1 k L hold hadsb) hcommb)
+    hsilent
+
+/-- **absent_after_61** — the 61-second form: if everything known about `k` — its stored stamps
+    (each `live` is the `int` of the time it was last heard) and every message of this call — dates
+    from time `T` or earlier, and `tnow - T > 61`, then `k` is absent after the call. -/
+theorem absent_after_61 (ias : Rat → Int → Rat) (tr tr' : Tracker) (adsb commb : List (Rat × Msg)) (tnow : Rat)
+    (h : processRaw ias tr adsb commb tnow = .val tr') (k : Msg) (T : Rat)
+    (hold : ∀ p ∈ tr.acs, p.1 = k → ∃ t0, t0 ≤ T ∧ p.2.live = pyInt t0)
+    (hadsb : ∀ p ∈ adsb, keyOf p.2 = k → p.1 ≤ T)
+    (hcommb : ∀ p ∈ commb, keyOf p.2 = k → p.1 ≤ T)
+    (hsilent : tnow - T > 61) : k ∉ keys tr'.acs := by
+  apply absent_if_silent ias tr tr' adsb commb tnow h k (pyInt T)
+  · intro p hp hk
+    obtain ⟨t0, ht0, e⟩ := hold p hp hk
+    rw [e]; exact Tracker.pyInt_mono ht0
+  · intro p hp hk; exact Tracker.pyInt_mono (hadsb p hp hk)
+  · intro p hp hk; exact Tracker.pyInt_mono (hcommb p hp hk)
+  · have := (Tracker.pyInt_bounds T).1
+    grind
+
+/-! ### 8. Letter case -/
+
+/-- **case_insensitive** — a hex message in lower case (or upper case) takes `adsbStep` and
+    `commbStep` to exactly the same result as the original spelling: the key `icao(msg)` is
+    canonical (C02) and every other use of the message goes through `hex2bin`. -/
+theorem case_insensitive (ias : Rat → Int → Rat) (tr : Tracker) (t : Rat) (m : Msg)
+    (hm : ∀ c ∈ m, (hexVal? c).isSome) :
+    adsbStep tr t (m.map Char.toLower) = adsbStep tr t m ∧
+    adsbStep tr t (m.map Char.toUpper) = adsbStep tr t m ∧
+    commbStep ias tr t (m.map Char.toLower) = commbStep ias tr t m ∧
+    commbStep ias tr t (m.map Char.toUpper) = commbStep ias tr t m ∧
+    keyOf (m.map Char.toLower) = keyOf m ∧ keyOf (m.map Char.toUpper) = keyOf m :=
+  ⟨Tracker.adsbStep_map _ tr t m (Tracker.toLower_ok m hm),
+   Tracker.adsbStep_map _ tr t m (Tracker.toUpper_ok m hm),
+   Tracker.commbStep_map ias _ tr t m (Tracker.toLower_ok m hm),
+   Tracker.commbStep_map ias _ tr t m (Tracker.toUpper_ok m hm),
+   by unfold Tracker.keyOf; rw [(PyModeS.C02.icao_case_insensitive m hm).1],
+   by unfold Tracker.keyOf; rw [(PyModeS.C02.icao_case_insensitive m hm).2]⟩
+
+/-- whole calls: lower-casing every message of both batches gives the identical table -/
+theorem processRaw_case_insensitive (ias : Rat → Int → Rat) (tr : Tracker) (adsb commb : List (Rat × Msg))
+    (tnow : Rat) (hm : ∀ p ∈ adsb ++ commb, ∀ c ∈ p.2, (hexVal? c).isSome) :
+    processRaw ias tr (adsb.map (fun p => (p.1, p.2.map Char.toLower)))
+        (commb.map (fun p => (p.1, p.2.map Char.toLower))) tnow = processRaw ias tr adsb commb tnow ∧
+    processRaw ias tr (adsb.map (fun p => (p.1, p.2.map Char.toUpper)))
+        (commb.map (fun p => (p.1, p.2.map Char.toUpper))) tnow = processRaw ias tr adsb commb tnow :=
+  ⟨Tracker.processRaw_map ias _ tr adsb commb tnow (fun p hp => Tracker.toLower_ok p.2 (hm p hp)),
+   Tracker.processRaw_map ias _ tr adsb commb tnow (fun p hp => Tracker.toUpper_ok p.2 (hm p hp))⟩
+
+/-! ### 9. `process_raw` never raises
+
+  Invariant of the table (`TrackerWF`): in every record, `tpos` set implies `lat` and `lon` set
+  (otherwise `position_with_ref(msg, None, None)` is reachable: TypeError), and a stored NIC
+  supplement `nic_s` is 0 or 1 (otherwise `TC_NICv1_lookup[tc][nic_s]` is a KeyError).  It holds for
+  `Decode()`'s empty table and is preserved by every step.
+
+  The decoder facts needed ("on a 112-bit frame whose type code is in the range under which
+  `process_raw` makes the call, the decoder returns a value") were bundled in `DecodersTotal` so as
+  not to wait for C14's `no_exc_112`; in the end every ADS-B decoder fact was proved outright
+  (`Proofs/Tracker/NoCrashDecoders.lean`), the bundle kept the single field `infer`, and that one is
+  proved too (`Proofs/Tracker/NoCrashInfer.lean`, `Tracker.decodersTotal`).  So the `_partial`
+  theorems are kept in the announced shape and the unconditional versions are given next to them.
+  Remaining caveats are the model's, not the proof's: the model of the Comm-B loop stops at
+  `pms.bds.infer` (the BDS 4,4/5,0/6,0 field decoders `process_raw` runs afterwards are not part of
+  `commbStep`); a non-hex character is read as 0 where Python raises; an ADS-B-list message whose
+  DF is not 17/18 DOES raise (`typecode` is `None`, `1 <= None`: TypeError) — hence `hdf`. -/
+
+open PyModeS.Tracker (TrackerWF AcWF DecodersTotal processHistory)
+
+theorem trackerWF_def (tr : Tracker) : TrackerWF tr ↔ ∀ p ∈ tr.acs,
+    (p.2.tpos.isSome → p.2.lat.isSome ∧ p.2.lon.isSome) ∧ (∀ s, p.2.nicS = some s → s ≤ 1) := Iff.rfl
+
+theorem trackerWF_empty : TrackerWF {} := Tracker.trackerWF_empty
+
+/-- the bundle: one field, about `pms.bds.infer` -/
+theorem decodersTotal_def : DecodersTotal ↔
+    ∀ (ias : Rat → Int → Rat) (bits : Bits), bits.length = 112 → ∃ v, infer ias bits false = .val v :=
+  ⟨fun D => D.infer, fun h => ⟨h⟩⟩
+
+/-- … and it holds -/
+theorem decodersTotal : DecodersTotal := Tracker.decodersTotal
+
+/-- **process_no_crash_partial** — one ADS-B message: on a 28-digit DF17/18 message and a
+    well-formed table, `adsbStep` returns a value (neither `RuntimeError` nor any other exception)
+    and the table stays well-formed.  Stated from the bundle `DecodersTotal` as announced; the
+    bundle is discharged (`decodersTotal`; C14 is not needed), see `process_no_crash`. -/
+theorem process_no_crash_partial (D : DecodersTotal) (tr : Tracker) (hwf : TrackerWF tr) (t : Rat) (m : Msg)
+    (hlen : m.length = 28) (hdf : df m = 17 ∨ df m = 18) :
+    (∃ tr', adsbStep tr t m = .val tr' ∧ TrackerWF tr') ∧ adsbStep tr t m ≠ .exc ∧ adsbStep tr t m ≠ .rte :=
+  ⟨Tracker.process_no_crash_partial D tr hwf t m hlen hdf, Tracker.adsbStep_ne_exc_rte tr hwf t m hlen hdf⟩
+
+/-- unconditional form -/
+theorem process_no_crash (tr : Tracker) (hwf : TrackerWF tr) (t : Rat) (m : Msg)
+    (hlen : m.length = 28) (hdf : df m = 17 ∨ df m = 18) :
+    (∃ tr', adsbStep tr t m = .val tr' ∧ TrackerWF tr') ∧ adsbStep tr t m ≠ .exc ∧ adsbStep tr t m ≠ .rte :=
+  process_no_crash_partial decodersTotal tr hwf t m hlen hdf
+
+/-- one Comm-B message of 28 digits (any DF): returns a value, table stays well-formed -/
+theorem commb_no_crash (ias : Rat → Int → Rat) (tr : Tracker) (hwf : TrackerWF tr) (t : Rat) (m : Msg)
+    (hlen : m.length = 28) : ∃ tr', commbStep ias tr t m = .val tr' ∧ TrackerWF tr' :=
+  Tracker.commbStep_no_crash_partial decodersTotal ias tr hwf t m hlen
+
+/-- **process_raw_no_crash** — a whole call: every ADS-B message a 28-digit DF17/18 message, every
+    Comm-B message 28 digits, any time stamps (monotonicity is not needed for this), any `tnow`:
+    `process_raw` returns a table, and it is well-formed again. -/
+theorem process_raw_no_crash (ias : Rat → Int → Rat) (tr : Tracker) (hwf : TrackerWF tr)
+    (adsb commb : List (Rat × Msg)) (tnow : Rat)
+    (ha : ∀ p ∈ adsb, p.2.length = 28 ∧ (df p.2 = 17 ∨ df p.2 = 18))
+    (hc : ∀ p ∈ commb, p.2.length = 28) :
+    ∃ tr', processRaw ias tr adsb commb tnow = .val tr' ∧ TrackerWF tr' :=
+  Tracker.process_raw_no_crash ias tr hwf adsb commb tnow ha hc
+
+/-- the same from the bundle (announced `_partial` shape) -/
+theorem process_raw_no_crash_partial (D : DecodersTotal) (ias : Rat → Int → Rat) (tr : Tracker) (hwf : TrackerWF tr)
+    (adsb commb : List (Rat × Msg)) (tnow : Rat)
+    (ha : ∀ p ∈ adsb, p.2.length = 28 ∧ (df p.2 = 17 ∨ df p.2 = 18))
+    (hc : ∀ p ∈ commb, p.2.length = 28) :
+    ∃ tr', processRaw ias tr adsb commb tnow = .val tr' ∧ TrackerWF tr' :=
+  Tracker.process_raw_no_crash_partial D ias tr hwf adsb commb tnow ha hc
+
+/-- **history_no_crash** — "for any history …": any sequence of such calls, starting from a fresh
+    `Decode()`, returns normally at every call (`processHistory` folds `processRaw` over the calls
+    `(adsb, commb, tnow)`; a prefix of a history is a history, so every intermediate call returned) -/
+theorem history_no_crash (ias : Rat → Int → Rat)
+    (calls : List (List (Rat × Msg) × List (Rat × Msg) × Rat))
+    (h : ∀ c ∈ calls, (∀ p ∈ c.1, p.2.length = 28 ∧ (df p.2 = 17 ∨ df p.2 = 18)) ∧ (∀ p ∈ c.2.1, p.2.length = 28)) :
+    ∃ tr', processHistory ias {} calls = .val tr' ∧ TrackerWF tr' :=
+  Tracker.processRaw_history_no_crash ias calls h
+
+theorem processHistory_def (ias : Rat → Int → Rat) (tr : Tracker)
+    (calls : List (List (Rat × Msg) × List (Rat × Msg) × Rat)) :
+    processHistory ias tr calls = foldRes (fun tr c => processRaw ias tr c.1 c.2.1 c.2.2) tr calls := rfl
+
+/-- hypotheses met by the frames of the examples below; and the DF precondition is sharp: a DF20
+    frame in the ADS-B list makes the model (like Python) raise -/
+example : exAdsb.length = 28 ∧ df exAdsb = 17 ∧ exAdsb2.length = 28 ∧ df exAdsb2 = 17 ∧ exCommb.length = 28 ∧
+    TrackerWF {} ∧ adsbStep {} 0 exCommb = .exc :=
+  ⟨by decide, by decide +kernel, by decide, by decide +kernel, by decide, trackerWF_empty, by decide +kernel⟩
+
+/-! ### Concrete histories (the hypotheses above are satisfiable, and the conclusions are what
+    the model computes): two ADS-B senders 406B90 and 400940, one Comm-B reply from 400940 -/
+
+/-- observation used in the examples: the listed keys with their `live` stamps -/
+def liveList (r : Res Tracker) : Option (List (Msg × Int)) :=
+  match r with
+  | .val tr => some (tr.acs.map fun p => (p.1, p.2.live))
+  | _ => none
+
+example : keyOf exAdsb = "406B90".toList ∧ keyOf exAdsb2 = "400940".toList ∧ keyOf exCommb = "400940".toList ∧
+    (∀ c ∈ exAdsb ++ exAdsb2 ++ exCommb, (hexVal? c).isSome) ∧
+    df exAdsb = 17 ∧ df exAdsb2 = 17 ∧ df exCommb = 20 := by decide +kernel
+
+/-- hypotheses of `listed_if_recent` / `live_monotone` / `listed_if_recent_commb`: sorted batch, heard ≤ 59 s ago -/
+example : [((1000 : Rat), exAdsb), (1002, exAdsb2)].Pairwise (fun p q => p.1 ≤ q.1) ∧
+    ((1000 : Rat), exAdsb) ∈ [((1000 : Rat), exAdsb), (1002, exAdsb2)] ∧ (1050 : Rat) - 1000 ≤ 59 ∧
+    (1062 : Rat) - 2007 / 2 ≤ 59 := by decide +kernel
+/-- … and the call returns: both listed at 1050; at 1062 only 400940 (last heard by Comm-B at 1003.5) -/
+example :
+    liveList (processRaw (fun _ _ => 0) {} [(1000, exAdsb), (1002, exAdsb2)] [(2007 / 2, exCommb)] 1050)
+      = some [("406B90".toList, 1000), ("400940".toList, 1003)] ∧
+    liveList (processRaw (fun _ _ => 0) {} [(1000, exAdsb), (1002, exAdsb2)] [(2007 / 2, exCommb)] 1062)
+      = some [("400940".toList, 1003)] := by decide +kernel
+/-- Comm-B gating: the reply alone creates no entry; an OLDER reply does not move `live` backwards -/
+example :
+    liveList (processRaw (fun _ _ => 0) {} [] [(1003, exCommb)] 1004) = some [] ∧
+    liveList (processRaw (fun _ _ => 0) {} [(1000, exAdsb)] [(1003, exCommb)] 1004)
+      = some [("406B90".toList, 1000)] ∧
+    liveList (processRaw (fun _ _ => 0) {} [(1002, exAdsb2)] [(990, exCommb)] 1004)
+      = some [("400940".toList, 1002)] := by decide +kernel
+/-- `absent_after_61` over two calls: 406B90 heard at 1000 only, second call at 1062 (> 61 s later) -/
+example :
+    liveList (do
+      let tr1 ← processRaw (fun _ _ => 0) {} [(1000, exAdsb)] [] 1001
+      processRaw (fun _ _ => 0) tr1 [(1002, exAdsb2)] [] 1062) = some [("400940".toList, 1002)] ∧
+    (1062 : Rat) - 1000 > 61 := by decide +kernel
+/-- letter case: the lower-cased history gives the same table -/
+example :
+    liveList (processRaw (fun _ _ => 0) {} [(1000, exAdsb.map Char.toLower), (1002, exAdsb2.map Char.toLower)]
+      [(2007 / 2, exCommb.map Char.toLower)] 1050)
+      = some [("406B90".toList, 1000), ("400940".toList, 1003)] := by decide +kernel
 
 end PyModeS.C17
